@@ -32,7 +32,7 @@ def cmdMisc (toks : Toks) : Option String :=
       -- cfg tplusOn isLong pos openClosing openCloseToday
       let (cfg, t) := rdCfg rest; let (tp, t) := tk t; let (il, t) := tk t
       let (p, t) := rdPos (pB il) t; let (oc, t) := tk t; let (oct, _) := tk t
-      some (joinSp [toString (posClosable cfg (pB tp) p (pI oc)), toString (posTodayClosable p (pI oct))])
+      some (joinSp [toString (posClosable cfg (pB tp) p (pI oc)), toString (posTodayClosable p (pI oct) (posClosable cfg (pB tp) p (pI oc)))])
   | "VCASH" :: rest =>
       let (cfg, t) := rdCfg rest; let (o, t) := rdOrderIn t; let (oc, t) := tk t; let (cash, _) := tk t
       some (sB (cashVeto cfg o (pF oc) (pF cash)))
